@@ -533,6 +533,7 @@ def run_link(case):
         r = loop.run_quiet(FINAL_SPAN)
         check(run, snapshot(run, env, final=True))
         run.quiet = r
+        run.conn_closed = env['cproto'].connection.is_closing()
         probe(run, env, channel, lambda: (env['sh2'].update_settings({MCS: 1}),
                                           env['sproto'].connection.flush()))
         try:
@@ -646,6 +647,7 @@ def run_client(case):
         r = loop.run_quiet(FINAL_SPAN)
         check(run, snapshot(run, env, final=True))
         run.quiet = r
+        run.conn_closed = cproto.connection.is_closing()
         probe(run, env, channel, lambda: peer.settings({MCS: 1}))
         run.peer_violations = len(peer.violations)
         try:
